@@ -28,6 +28,8 @@ import (
 	"github.com/ChainSafe/sygma-relayer/chains/substrate"
 	"github.com/ChainSafe/sygma-relayer/config"
 	"github.com/ChainSafe/sygma-relayer/config/relayer"
+	"github.com/spf13/cobra"
+	"github.com/spf13/viper"
 )
 
 func c20Raw() relayer.RawRelayerConfig {
@@ -344,6 +346,23 @@ func init() {
 	}
 	ops["C20.porttext"], ops["C20.portbase"], ops["C20.portbasex"] = portText, portText, portText
 	ops["C20.chain"] = c20Chain
+	// subnet / subnetwrap / subnetwrapx <i|f> <n>  => ok:<SubstrateNetwork loaded> | err
+	subnet := func(a []string) string {
+		c, err := substrate.NewSubstrateConfig(map[string]interface{}{"id": 1, "name": "c", "endpoint": "ws://e", "type": "substrate", "substrateNetwork": c20Num(a[1], a[0])})
+		if err != nil {
+			return "err"
+		}
+		return "ok:" + utoa(uint64(c.SubstrateNetwork))
+	}
+	ops["C20.subnet"], ops["C20.subnetwrap"], ops["C20.subnetwrapx"] = subnet, subnet, subnet
+	// descevm <i|f> <maxGasPrice> <gasIncreasePercentage> <gasLimit> <transferGas> <startBlock> <blockConfirmations> <blockInterval> <blockRetryInterval>
+	// descsub <i|f> <chainID> <startBlock> <blockInterval> <blockRetryInterval> <tip>
+	//   => ok:<fields after load>|<after String()>|<after 2nd String()>|<after CalculateStartingBlock>|<t|f both descriptions equal> | err
+	ops["C20.descevm"] = func(a []string) string { return c20Describe("evm", a) }
+	ops["C20.descsub"] = func(a []string) string { return c20Describe("sub", a) }
+	// general / generalbs / generalbsx <evm|sub|btc> <v|b> <fresh _|t|b> <latest _|t|b> <blockstorePath _|hex> <--fresh t|b> <--latest t|b> <--blockstore _|hex>
+	//   => ok:<fresh>:<latest>:<blockstore hex> | err      (v = viper values set directly, b = config.BindFlags + a parsed command line)
+	ops["C20.general"], ops["C20.generalbs"], ops["C20.generalbsx"] = c20General, c20General, c20General
 	ops["C20.retrywrap"] = func(a []string) string { return c20Chain([]string{a[0], "f", "_", "_", "_", a[1]}) }
 	mergeOp := func(a []string) string {
 		local := c20ParseChains(a[1])
@@ -614,6 +633,166 @@ func c20NumStr(kind, field, val string) string {
 		}
 	}
 	panic("numstr " + kind + " " + field)
+}
+
+// ---- describing a loaded chain config (String()), then reading every numeric field again
+
+const c20EvmKey = "4c0883a69102937d6231471b5dbb6204fe5129617082792ae468d01a3f362318"
+
+func c20Ints(xs ...interface{}) string {
+	out := []string{}
+	for _, x := range xs {
+		switch v := x.(type) {
+		case *big.Int:
+			out = append(out, v.String())
+		case uint64:
+			out = append(out, utoa(v))
+		case int64:
+			out = append(out, strconv.FormatInt(v, 10))
+		default:
+			panic("c20Ints")
+		}
+	}
+	return strings.Join(out, ",")
+}
+
+// c20Describe: load, snapshot, String(), snapshot, String(), snapshot, CalculateStartingBlock on a copy, snapshot.
+func c20Describe(kind string, a []string) string {
+	repr := a[0]
+	m := map[string]interface{}{"id": c20Num("1", repr), "name": "c", "endpoint": "ws://e", "type": kind}
+	set := func(keys []string) {
+		for i, k := range keys {
+			if a[1+i] != "_" {
+				m[k] = c20Num(a[1+i], repr)
+			}
+		}
+	}
+	var snap func() string
+	var str func() string
+	var sb, bi *big.Int
+	switch kind {
+	case "evm":
+		set([]string{"maxGasPrice", "gasIncreasePercentage", "gasLimit", "transferGas", "startBlock", "blockConfirmations", "blockInterval", "blockRetryInterval"})
+		m["bridge"], m["key"] = "0xb", c20EvmKey
+		c, err := evm.NewEVMConfig(m)
+		if err != nil {
+			return "err"
+		}
+		snap = func() string {
+			return c20Ints(c.MaxGasPrice, c.GasIncreasePercentage, c.GasLimit, c.TransferGas, c.StartBlock, c.BlockConfirmations, c.BlockInterval, int64(c.BlockRetryInterval))
+		}
+		str, sb, bi = c.String, c.StartBlock, c.BlockInterval
+	case "sub":
+		set([]string{"chainID", "startBlock", "blockInterval", "blockRetryInterval", "tip"})
+		m["key"] = "//Alice"
+		c, err := substrate.NewSubstrateConfig(m)
+		if err != nil {
+			return "err"
+		}
+		snap = func() string { return c20Ints(c.ChainID, c.StartBlock, c.BlockInterval, int64(c.BlockRetryInterval), c.Tip) }
+		str, sb, bi = c.String, c.StartBlock, c.BlockInterval
+	default:
+		panic("kind")
+	}
+	s0 := snap()
+	d1 := str()
+	s1 := snap()
+	d2 := str()
+	s2 := snap()
+	func() {
+		defer func() { recover() }()
+		_, _ = chains.CalculateStartingBlock(new(big.Int).Set(sb), bi)
+	}()
+	s3 := snap()
+	same := "t"
+	if d1 != d2 {
+		same = "f"
+	}
+	return "ok:" + s0 + "|" + s1 + "|" + s2 + "|" + s3 + "|" + same
+}
+
+// ---- general chain settings and the command-line flags that may override them
+
+func c20General(a []string) string {
+	kind, mode := a[0], a[1]
+	m := map[string]interface{}{"id": 1, "name": "c", "endpoint": "ws://e", "type": kind}
+	tb := func(s string) bool { return s == "t" }
+	if a[2] != "_" {
+		m["fresh"] = tb(a[2])
+	}
+	if a[3] != "_" {
+		m["latest"] = tb(a[3])
+	}
+	if a[4] != "_" {
+		m["blockstorePath"] = string(unhx(a[4]))
+	}
+	defer viper.Reset()
+	switch mode {
+	case "v": // the flags' values as viper reports them, nothing bound
+		if tb(a[5]) {
+			viper.Set(config.FreshStartFlagName, true)
+		}
+		if tb(a[6]) {
+			viper.Set(config.LatestBlockFlagName, true)
+		}
+		if a[7] != "_" {
+			viper.Set(config.BlockstoreFlagName, string(unhx(a[7])))
+		}
+	case "b": // the real wiring: cobra flags bound by config.BindFlags, then a command line
+		cmd := &cobra.Command{Use: "relayer"}
+		config.BindFlags(cmd)
+		args := []string{}
+		if tb(a[5]) {
+			args = append(args, "--"+config.FreshStartFlagName)
+		}
+		if tb(a[6]) {
+			args = append(args, "--"+config.LatestBlockFlagName)
+		}
+		if a[7] != "_" {
+			args = append(args, "--"+config.BlockstoreFlagName+"="+string(unhx(a[7])))
+		}
+		if err := cmd.ParseFlags(args); err != nil {
+			panic(err)
+		}
+	default:
+		panic("mode")
+	}
+	var gc interface {
+	}
+	_ = gc
+	var fresh, latest bool
+	var bs string
+	switch kind {
+	case "evm":
+		m["bridge"] = "0xb"
+		c, err := evm.NewEVMConfig(m)
+		if err != nil {
+			return "err"
+		}
+		fresh, latest, bs = c.GeneralChainConfig.FreshStart, c.GeneralChainConfig.LatestBlock, c.GeneralChainConfig.BlockstorePath
+	case "sub":
+		c, err := substrate.NewSubstrateConfig(m)
+		if err != nil {
+			return "err"
+		}
+		fresh, latest, bs = c.GeneralChainConfig.FreshStart, c.GeneralChainConfig.LatestBlock, c.GeneralChainConfig.BlockstorePath
+	case "btc":
+		m["username"], m["password"], m["feeAddress"] = "u", "p", c20BtcAddr
+		c, err := btcConfig.NewBtcConfig(m)
+		if err != nil {
+			return "err"
+		}
+		fresh, latest, bs = c.GeneralChainConfig.FreshStart, c.GeneralChainConfig.LatestBlock, c.GeneralChainConfig.BlockstorePath
+	default:
+		panic("kind")
+	}
+	b := func(x bool) string {
+		if x {
+			return "t"
+		}
+		return "b"
+	}
+	return "ok:" + b(fresh) + ":" + b(latest) + ":" + hx([]byte(bs))
 }
 
 func c20IdNum(v interface{}) (float64, bool) {
@@ -954,5 +1133,76 @@ func genC20(g *G) {
 			t += g.Pick([]string{"0", "1", "7", "8", "9", "5", "f", "F", "_", "a", "x", " "}[:6+g.Intn(7)])
 		}
 		emitPort(g.Pick([]string{"h", "m"}), g.Pick([]string{"d", "f", "e"}), t)
+	}
+	// --- describe (String()) a loaded config, then read every numeric field again; all written / unwritten patterns of a value set
+	dv := [][]string{{"_", "20000000000", "1", "999999999", "1000000000", "-7"}, {"_", "20", "0"}, {"_", "1000", "0"}, {"_", "300000", "0", "-1"},
+		{"_", "17", "1000000007"}, {"_", "3", "0"}, {"_", "2", "7"}, {"_", "7", "0"}}
+	for _, r := range []string{"i", "f"} {
+		for i, vals := range dv { // one field at a time over its values, the others unwritten
+			for _, v := range vals {
+				a := []string{r, "_", "_", "_", "_", "_", "_", "_", "_"}
+				a[1+i] = v
+				g.Emit("descevm", a...)
+			}
+		}
+	}
+	for i := 0; i < g.Count(400, 20000); i++ {
+		a := []string{g.Pick([]string{"i", "f"})}
+		for _, vals := range dv {
+			a = append(a, g.Pick(vals))
+		}
+		if g.Intn(3) == 0 {
+			a[1] = strconv.FormatInt(int64(g.U64()%uint64(1<<53)), 10)
+		}
+		g.Emit("descevm", a...)
+	}
+	sv2 := [][]string{{"_", "5", "-5", "1000000000000"}, {"_", "17", "1000000007"}, {"_", "2", "7", "0"}, {"_", "7", "0"}, {"_", "9", "0", "-1", "1000000000"}}
+	for i := 0; i < g.Count(200, 8000); i++ {
+		a := []string{g.Pick([]string{"i", "f"})}
+		for _, vals := range sv2 {
+			a = append(a, g.Pick(vals))
+		}
+		g.Emit("descsub", a...)
+	}
+	// --- general settings x flags: every combination, all chain kinds, both ways of providing the flags
+	tri := []string{"_", "t", "b"}
+	bsv := []string{"_", hs("/data/chain1"), hs("")}
+	fbs := []string{"_", hs("/flag/store")}
+	for _, k := range []string{"evm", "sub", "btc"} {
+		for _, mode := range []string{"v", "b"} {
+			for _, f := range tri {
+				for _, l := range tri {
+					for _, b := range bsv {
+						for _, ff := range []string{"b", "t"} {
+							for _, fl := range []string{"b", "t"} {
+								for _, fb := range fbs {
+									// with the real flag wiring an unset --blockstore still reports its default ./lvldbdata, which
+									// replaces a written per-chain blockstorePath: known finding, run strictly and excused
+									if mode == "b" && fb == "_" && b != "_" && b != hs("") {
+										g.Emit("generalbs", k, mode, f, l, b, ff, fl, fb)
+										g.Emit("generalbsx", k, mode, f, l, b, ff, fl, fb)
+									} else {
+										g.Emit("general", k, mode, f, l, b, ff, fl, fb)
+									}
+								}
+							}
+						}
+					}
+				}
+			}
+		}
+	}
+	// --- substrateNetwork (int64 setting stored as uint16): in range strictly; outside as known finding + excused twin
+	for _, r := range []string{"i", "f"} {
+		for _, n := range []int64{0, 1, 42, 255, 256, 32767, 32768, 65534, 65535} {
+			g.Emit("subnet", r, strconv.FormatInt(n, 10))
+		}
+		for _, n := range []int64{-1, -2, -32768, -65535, -65536, 65536, 65537, 65578, 131072, 1 << 31, 1 << 32, 1<<53 - 1, -(1 << 40)} {
+			g.Emit("subnetwrap", r, strconv.FormatInt(n, 10))
+			g.Emit("subnetwrapx", r, strconv.FormatInt(n, 10))
+		}
+	}
+	for i := 0; i < g.Count(100, 5000); i++ {
+		g.Emit("subnet", g.Pick([]string{"i", "f"}), itoa(g.Intn(65536)))
 	}
 }
